@@ -2,10 +2,10 @@ package main
 
 import (
 	"fmt"
-	"strings"
 	"go/token"
 	"go/types"
 	"sort"
+	"strings"
 
 	"golang.org/x/tools/go/ssa"
 )
@@ -37,6 +37,9 @@ func checkC01(c *Ctx, r *Report) {
 	importRules(c, r, "C09", "C01.SKIP", "the @skip/@include rules of C09 (sticky exclusion, polarity, gate before every dispatch, operation variables), which decide which selections are in the response at all")
 	importRules(c, r, "C10", "C01.FDEF", "the field definition used for a resolution is looked up in the container type of that resolution (C10.FIELD): a definition remembered from another container (the first member of a union list) coerces the value with the wrong type", "C10.FIELD")
 	importRules(c, r, "C06", "C01.NESTED", "each element of a list is resolved by the type dispatcher applied to the list's element type (C06.G1): inner lists of [[T]] are mirrored element by element only through the dispatcher", "C06.G1~type dispatcher for the element type")
+	c01FragLink(c, r)
+	r.rule("C01.META", "the Go type recorded for an object type and the type it is compared with are derived from objects in the same way (as C08.METADOM): a union member or interface implementation bound under a different derivation (stripped, re-pointered) is resolved with the wrong method set or not found, so selected fields come back null")
+	c08MetaDom(c, r, "C01.META")
 	r.rule("C01.NATIVE", "lists held in the Go carriers the library walks itself (frozen table) are mirrored by the library's own element loops on every configuration: no path hands such a value to the root resolver's Len/Nth")
 	nativeListRule(c, r, a, "C01.NATIVE", "a root resolver written for its own containers answers Len 0 for it, so the list comes back empty, silently, instead of mirrored element by element")
 }
